@@ -4,7 +4,7 @@ EXTENDS FinamBase
 
 K(hasin, src, inown, pull, hasout, outown, data, off) ==
   [hasin |-> hasin, src |-> src, inown |-> inown, pull |-> pull, hasout |-> hasout,
-   outown |-> outown, data |-> data, off |-> off, oprov |-> FALSE]
+   outown |-> outown, data |-> data, off |-> off, oprov |-> FALSE, refine |-> FALSE]
 Datas == {"imm", "pulled", "ininfo"}
 Cf(comps, order, fam) == [comps |-> comps, order |-> order, fam |-> fam]
 
@@ -31,7 +31,14 @@ Loop3(u) == {Cf(<<a, b, c>>, o, "loop3") : a \in Mid(3), b \in Mid(1), c \in {K(
 (* rings in which one component passes its output metadata to every connect call *)
 Ring2Prov(u) == {Cf(<<[a EXCEPT !.oprov = TRUE], b>>, o, "ring2prov") : a \in {x \in Mid(2) : ~x.outown}, b \in Mid(1), o \in Perm2}
 
+(* components that first supply a guess and later the value refined after their own pull *)
+Ring2Refine(u) == {Cf(<<[a EXCEPT !.refine = TRUE], [b EXCEPT !.refine = rb]>>, o, "ring2refine") :
+                     a \in {x \in Mid(2) : x.data = "imm" /\ x.pull}, b \in Mid(1), rb \in BOOLEAN, o \in Perm2}
+Chain3Refine(u) == {Cf(<<a, [b EXCEPT !.refine = TRUE], c>>, o, "chain3refine") :
+                     a \in HeadC, b \in {x \in Mid(1) : x.data = "imm" /\ x.pull}, c \in TailC(2), o \in Perm3}
+
 CSpace(f) ==
   CASE f = "ring2" -> Ring2(0) [] f = "chain3" -> Chain3(0) [] f = "ring3" -> Ring3(0)
     [] f = "fan" -> Fan(0) [] f = "loop3" -> Loop3(0) [] f = "ring2prov" -> Ring2Prov(0)
+    [] f = "ring2refine" -> Ring2Refine(0) [] f = "chain3refine" -> Chain3Refine(0)
 =============================================================================
